@@ -2,7 +2,8 @@
 # tools/check_seeded.sh [tier] : applies every stored seeded change in turn and runs the check(s) that are recorded to report it;
 # prints one line per change. /repo must be clean. (About 1-2 minutes per change.)
 tier=${1:-quick}
-cd /verif || exit 2
+VERIF_HOME=${VERIF_HOME:-/verif}; export VERIF_HOME
+cd $VERIF_HOME || exit 2
 # the batch may end soon after the first violation that is not a known finding (the question here is only "reported or not")
 VERIF_STOP_EARLY=1; export VERIF_STOP_EARLY
 fail=0
@@ -14,7 +15,7 @@ for d in seeded/*/; do
 	case $id in C07-3) checks="C13";; C11-4) checks="C11";; esac
 	caught=no
 	for c in $checks; do
-		out=$(tools/try_mutant.sh /verif/$d/patch.diff $tier $c 2>&1 | grep "^MUTANT")
+		out=$(tools/try_mutant.sh $VERIF_HOME/$d/patch.diff $tier $c 2>&1 | grep "^MUTANT")
 		case "$out" in *"exit=1 violations="[1-9]*) caught=yes;; esac
 	done
 	echo "$id: caught=$caught ($checks $tier)"
